@@ -87,6 +87,17 @@ func genC07(e *emitter, tier string, seed uint64) {
 			}
 		}
 	}
+	// signature checks in a script that ends with a top-level OP_RETURN and a tail: the script code rebuilt for the digest
+	// includes the parser's "rest of the script" pseudo-opcode (every tail length 0..3 and push-looking first bytes)
+	for _, tail := range []string{"", "00", "01", "02", "4c", "4d", "4e", "0101", "01ff", "0201", "4c00", "4c01", "4d01", "4e010000", "ab", "abab", "010203"} {
+		for _, fl := range []int{0, fAfterGenesis, fForkID, fForkID | fAfterGenesis, fNullFail, fStrictEnc} {
+			for _, sigs := range [][2][]byte{{{0x51, 0x51}, {0xac}}, {{0x00, 0x51, 0x51}, {0x51, 0xae}}, {{0x02, 0x30, 0x01, 0x51}, {0xac}}, {{0x51, 0x51}, {0xab, 0xac}}} {
+				lock := append(append(append([]byte{}, sigs[1]...), 0x6a), mustHex(tail)...)
+				total(fl, sigs[0], lock, 1, 0)
+				total(fl, sigs[0], append([]byte{0x51, 0x63}, append(lock, 0x68)...), 1, 1)
+			}
+		}
+	}
 	// every opcode with a number beyond the machine-word range on top of, and second on, the stack (post-Genesis numbers
 	// are unbounded: any conversion to a machine integer inside an opcode must be guarded by a comparison on the big value)
 	{
